@@ -19,6 +19,8 @@ type Subscription struct {
 	sub   Subscriber
 	field *Field
 	args  map[string]interface{}
+	// conType is the type of the subscription field, the type of the events.
+	conType Type
 }
 
 // NewSubscription creates a new subscription. It should be called in a
@@ -32,5 +34,5 @@ func NewSubscription(sub Subscriber, field *Field, args map[string]interface{}) 
 }
 
 func (sub *Subscription) prep(root *Root) {
-	sub.field.ConType = root.getFieldType(sub.field.ConType, sub.field.Name)
+	sub.conType = root.getFieldType(sub.field.ConType, sub.field.Name)
 }
